@@ -117,12 +117,18 @@ func termOf(n datamodel.Node) string {
 }
 
 // consistency walks the node: Length vs iterators vs every lookup form, recursively.
-func consistency(n datamodel.Node, path string) (problem string) {
+func consistency(n datamodel.Node, path string) string { return consistencyAt(n, path, 0) }
+
+func consistencyAt(n datamodel.Node, path string, depth int) (problem string) {
 	defer func() {
 		if r := recover(); r != nil {
 			problem = fmt.Sprintf("panic at %s: %v", path, r)
 		}
 	}()
+	if depth > 5000 {
+		// deeper than any tree a check builds: a node that has come to contain itself
+		return "nested beyond any generated tree (cyclic?) below " + truncateStr(path, 60)
+	}
 	switch n.Kind() {
 	case datamodel.Kind_Map:
 		cnt := int64(0)
@@ -152,7 +158,7 @@ func consistency(n datamodel.Node, path string) (problem string) {
 					return fmt.Sprintf("%s(%q) at %s returns %s, iterator yields %s", name, ks, path, termOf(got), want)
 				}
 			}
-			if p := consistency(v, path+"/"+strconv.Quote(ks)); p != "" {
+			if p := consistencyAt(v, path+"/"+strconv.Quote(ks), depth+1); p != "" {
 				return p
 			}
 		}
@@ -190,7 +196,7 @@ func consistency(n datamodel.Node, path string) (problem string) {
 					return fmt.Sprintf("%s(%d) at %s returns %s, iterator yields %s", name, i, path, termOf(got), want)
 				}
 			}
-			if p := consistency(v, fmt.Sprintf("%s/%d", path, i)); p != "" {
+			if p := consistencyAt(v, fmt.Sprintf("%s/%d", path, i), depth+1); p != "" {
 				return p
 			}
 		}
